@@ -373,7 +373,14 @@ fn cli_case() -> BoxedStrategy<CliCase> {
 			any::<bool>(),
 			prop_oneof![
 				6 => Just(None),
-				1 => prop_oneof![Just("B*"), Just("ÄT"), Just("a@b"), Just("U_S"), Just("\u{7f}")].prop_map(|s| Some(Invalid::NonPrintableCountry(s.to_string()))),
+				// a country string with exactly one character outside the PrintableString alphabet, at any position
+				2 => ("[A-Za-z0-9 ]{0,3}", prop_oneof![
+						4 => (0x21u8..0x7f).prop_filter_map("printable", |b| if StrKind::Printable.admits(b as char) { None } else { Some(b as char) }),
+						1 => prop::sample::select(vec!['Ä', 'é', '\u{7f}', '\u{1}', '中', '\u{80}']),
+					], "[A-Za-z0-9 ]{0,3}").prop_map(|(a, c, b)| {
+						let s = format!("{a}{c}{b}");
+						Some(Invalid::NonPrintableCountry(if s.starts_with('-') { format!("A{s}") } else { s }))
+					}),
 				1 => prop_oneof![Just("exämple.com"), Just("bücher.example"), Just("日本.jp"), Just("a\u{80}")].prop_map(|s| Some(Invalid::NonAsciiSan(s.to_string()))),
 				1 => Just(Some(Invalid::RsaOnRing)),
 				1 => Just(Some(Invalid::P521OnRing)),
